@@ -8,9 +8,9 @@ ASSUMPTIONS = []
 EXPLANATION = ("the ownership ledger of the probe element (token issued on construction, retired on destruct) asserted after every mutating step of Table, Tree and Array "
                "from arbitrary valid states: no element finalised twice or never, none duplicated or dropped by internal moves, live tokens = sum of lengths; deep copies share nothing")
 QUICK = (
-    pick("C02", r"table\.(set\.home[024]|rem\.home[14])\.ns5|table\.(del|clearset)\.ns5|table\.init|table\.assign\.m[12]", tiers=("quick",))
+    pick("C02", r"table\.(set\.home[04]|rem\.home[14])\.ns5|table\.(del|clearset)\.ns5|table\.init|table\.assign\.m1|table\.(rehash_calls\.5to11|setmove_move)", tiers=("quick",))
     + pick("C03", r"tree\.(set|rem|clear)\.q[2-5]$", tiers=("quick",))
-    + pick("C04", r"array\.(push|pop|rem|resize|sort|del|getset)\.n[23]|array\.(pop|rem)\.n4\+1|array\.(concat|assign)\.n2\+1\.m[12]|array\.(push_at|pop_at)\.n2\+1\.i(0|1|-1)$", tiers=("quick",))
+    + pick("C04", r"array\.(push|pop|rem|del|getset)\.n[23]|array\.(resize|sort)\.n2|array\.(pop|rem)\.n4\+1|array\.(concat|assign)\.n2\+1\.m[12]|array\.(push_at|pop_at)\.n2\+1\.i(0|1|-1)$", tiers=("quick",))
     + pick("C04", r"list\.(push|pop|push_at|pop_at|getset|rem|resize|del)\.n[23]$|list\.(concat|assign)\.n2\.m[12]|list\.bad_index\.n2", tiers=("quick",))
 )
 THOROUGH = (
